@@ -178,5 +178,76 @@ theorem count_equal_split (a : Alphabet) (h : a.WFDegen) (x : Nat) (hx : x < a.K
     simp only [nsmul_eq_mul]
     field_simp
 
+/-- sum of `f` over the indices of `[i, i+k)` flagged in both rows -/
+def flagSum2 (rowx rowy : List Nat) (f : Nat → ℚ) (i k : Nat) : ℚ :=
+  (((List.range' i k).filter fun j => rowx.getD j 0 ≠ 0 ∧ rowy.getD j 0 ≠ 0).map f).sum
+
+theorem flagSum_succ (row : List Nat) (f : Nat → ℚ) (i k : Nat) :
+    flagSum row f i (k + 1) = (if row.getD i 0 ≠ 0 then f i else 0) + flagSum row f (i + 1) k := by
+  unfold flagSum
+  rw [show List.range' i (k + 1) = i :: List.range' (i + 1) k by simp [List.range'_succ]]
+  by_cases h : row.getD i 0 = 0
+  · rw [List.filter_cons_of_neg (by simpa using h), if_neg (fun hh => hh h), zero_add]
+  · rw [List.filter_cons_of_pos (by simpa using h), if_pos h, List.map_cons, List.sum_cons]
+
+theorem flagSum2_succ (rowx rowy : List Nat) (f : Nat → ℚ) (i k : Nat) :
+    flagSum2 rowx rowy f i (k + 1) =
+      (if rowx.getD i 0 ≠ 0 ∧ rowy.getD i 0 ≠ 0 then f i else 0) + flagSum2 rowx rowy f (i + 1) k := by
+  unfold flagSum2
+  rw [show List.range' i (k + 1) = i :: List.range' (i + 1) k by simp [List.range'_succ]]
+  by_cases h : rowx.getD i 0 ≠ 0 ∧ rowy.getD i 0 ≠ 0
+  · rw [List.filter_cons_of_pos (by simpa using h), if_pos h, List.map_cons, List.sum_cons]
+  · rw [List.filter_cons_of_neg (by simpa using h), if_neg h, zero_add]
+
+theorem matchLoop_sum (rowx rowy : List Nat) (pf : Nat → Option ℚ) (q : Nat → ℚ) :
+    ∀ (k i : Nat) (prob sx sy : ℚ), i + k ≤ rowx.length → i + k ≤ rowy.length →
+      (∀ j, i ≤ j → j < i + k → pf j = some (q j)) →
+      matchLoop rowx rowy pf k i (prob, sx, sy) =
+        some (prob + flagSum2 rowx rowy (fun j => q j * q j) i k, sx + flagSum rowx q i k, sy + flagSum rowy q i k) := by
+  intro k
+  induction k with
+  | zero => intro i prob sx sy _ _ _; simp [matchLoop, flagSum, flagSum2]
+  | succ k ih =>
+    intro i prob sx sy hx hy hf
+    have ex := getElem?_getD0 rowx i (by omega)
+    have ey := getElem?_getD0 rowy i (by omega)
+    have hq := hf i (Nat.le_refl _) (by omega)
+    have ih' := fun prob sx sy => ih (i + 1) prob sx sy (by omega) (by omega) (fun j h1 h2 => hf j (by omega) (by omega))
+    rw [flagSum_succ, flagSum_succ, flagSum2_succ]
+    by_cases fx : rowx.getD i 0 = 0 <;> by_cases fy : rowy.getD i 0 = 0
+    · simp only [matchLoop, ex, ey, fx, fy, Option.bind_eq_bind, Option.bind_some, ne_eq, not_true_eq_false,
+        if_false, and_self]
+      rw [ih']; simp
+    · simp only [matchLoop, ex, ey, hq, fx, fy, Option.bind_eq_bind, Option.bind_some, ne_eq, not_true_eq_false,
+        not_false_eq_true, if_true, if_false, false_and, Option.map_some, sn_add]
+      rw [ih']; simp; ring
+    · simp only [matchLoop, ex, ey, hq, fx, fy, Option.bind_eq_bind, Option.bind_some, ne_eq, not_true_eq_false,
+        not_false_eq_true, if_true, if_false, and_false, Option.map_some, sn_add]
+      rw [ih']; simp; ring
+    · simp only [matchLoop, ex, ey, hq, fx, fy, Option.bind_eq_bind, Option.bind_some, ne_eq,
+        not_false_eq_true, if_true, and_self, Option.map_some, sn_add, sn_mul]
+      rw [ih']; simp
+      refine ⟨by ring, by ring, by ring⟩
+
+/-- `esl_abc_Match(abc, x, y, p)` for residue codes that are not both canonical, as a rational function:
+    Σ_{i ∈ S(x) ∩ S(y)} p_i² / (Σ_{S(x)} p_i · Σ_{S(y)} p_i) -/
+theorem matchProb_formula (a : Alphabet) (h : a.WFDegen) (x y : Nat) (hx : x < a.Kp) (hy : y < a.Kp)
+    (hrx : a.xIsResidue x = true) (hry : a.xIsResidue y = true) (hnc : (a.xIsCanonical x && a.xIsCanonical y) = false)
+    (p : List ℚ) (hp : a.K ≤ p.length) :
+    a.matchProb x y (some p) =
+      some (flagSum2 (a.degen.getD x []) (a.degen.getD y []) (fun j => p.getD j 0 * p.getD j 0) 0 a.K /
+        (flagSum (a.degen.getD x []) (fun j => p.getD j 0) 0 a.K * flagSum (a.degen.getD y []) (fun j => p.getD j 0) 0 a.K)) := by
+  obtain ⟨hd, hn, hrow⟩ := h
+  have e1 : a.degen[x]? = some (a.degen.getD x []) := by
+    rw [List.getD_eq_getElem?_getD, List.getElem?_eq_getElem (by omega)]; simp
+  have e2 : a.degen[y]? = some (a.degen.getD y []) := by
+    rw [List.getD_eq_getElem?_getD, List.getElem?_eq_getElem (by omega)]; simp
+  unfold matchProb
+  simp only [hnc, Bool.false_eq_true, if_false, hrx, hry, Bool.not_true, Bool.or_self, e1, e2, Option.bind_eq_bind,
+    Option.bind_some]
+  rw [matchLoop_sum _ _ _ (fun j => p.getD j 0) a.K 0 _ _ _ (by rw [(hrow x hx).1]; omega) (by rw [(hrow y hy).1]; omega)
+    (fun j _ hj => sc_get p j (by omega))]
+  simp only [Option.bind_some, sn_zero, zero_add, sn_div, sn_mul]
+
 end Alphabet
 end EaselModel.Alphabet
